@@ -1557,6 +1557,15 @@ class Engine:
             enter = self.branch(self.truthy(self.ev(n.test)))
         if not enter:
             st.vars["_i"] = vint(i)
+            if is_for:
+                # on exit the index equals the upper bound: state the invariant at the bound term itself as well (same fact, but
+                # syntactically aligned with postconditions that speak about len(..) / the range's end)
+                st.pc.append(z3.Or(i == hi, hi < lo))
+                try:
+                    at_hi = self.loop_inv(k, spec, hi)
+                except OutOfSubset:
+                    at_hi = []
+                st.pc.append(z3.Implies(hi >= lo, z3.And(*at_hi)) if at_hi else z3.BoolVal(True))
             if n.orelse:
                 self.block(n.orelse)
             return
